@@ -279,9 +279,27 @@ func H_C05_lndRequestNoLimit() {
 // H_C24_lndCheckChannel: CheckChannel asks for active channels only and returns the FIRST listed
 // channel one of whose spellings ("b:t:o" or "bxtxo") equals the scid, provided its local balance
 // covers the amount; no match => error.  Bounds: <= 3 channels, scid <= 14 characters.
-func H_C24_lndCheckChannel() {
+func H_C24_lndCheckChannel() { vrCheckChannel(false) }
+
+// H_C24_lndCheckChannelConcreteIds: the same with channel ids from {1x2x3, 1x2x4} and the scid one of
+// "1x2x3", "1:2:3", "1x2x4", "1:2:4", "1x2x2", "3x2x1": here both spellings are computed exactly (for arbitrary ids
+// they are uninterpreted functions of the id, which is enough for "selected by spelling" but gives
+// witnesses that do not replay when the code spells an id differently from the oracle).
+func H_C24_lndCheckChannelConcreteIds() { vrCheckChannel(true) }
+
+func vrConcreteScid() string {
+	return [6]string{"1x2x3", "1:2:3", "1x2x4", "1:2:4", "1x2x2", "3x2x1"}[zzverif.Choice("scid.sel", 6)]
+}
+
+func vrCheckChannel(concrete bool) {
 	cl, l, _ := vrClient()
-	scid := zzverif.Str("scid")
+	l.concreteIDs = concrete
+	var scid string
+	if concrete {
+		scid = vrConcreteScid()
+	} else {
+		scid = zzverif.Str("scid")
+	}
 	zzverif.Assume(len(scid) <= 14)
 	amt := zzverif.U64("amount_sat")
 	ch, err := cl.CheckChannel(scid, amt)
@@ -317,9 +335,22 @@ func vrPay(cl *Client, payreq, scid string, limit uint32) (string, error) {
 // the scid passed in, and only if the invoice's destination is c.RemotePubkey; a preimage is
 // returned only when lnd reported SUCCEEDED.
 // Bounds: <= 3 channels, scid <= 14 characters, <= 2 non-final payment updates.
-func H_C24_lndPay() {
+func H_C24_lndPay() { vrPayEntry(false) }
+
+// H_C24_lndPayConcreteIds: the same with channel ids from {1x2x3, 1x2x4} and concrete scids (see
+// H_C24_lndCheckChannelConcreteIds).
+func H_C24_lndPayConcreteIds() { vrPayEntry(true) }
+
+func vrPayEntry(concrete bool) {
 	cl, l, r := vrClient()
-	payreq, scid := zzverif.Str("payreq"), zzverif.Str("scid")
+	l.concreteIDs = concrete
+	payreq := zzverif.Str("payreq")
+	var scid string
+	if concrete {
+		scid = vrConcreteScid()
+	} else {
+		scid = zzverif.Str("scid")
+	}
 	zzverif.Assume(len(scid) <= 14)
 	pre, err := vrPay(cl, payreq, scid, zzverif.U32("limit"))
 	zzverif.Assert(len(r.sends) <= 1, "C24.lnd_at_most_one_payment")
